@@ -34,7 +34,7 @@ def plan(tier):
 
 
 def list_strategy():
-    return st.one_of(c01.strategy(), c02.strategy(), c03.st_case(), c04.strategy(), c05.strategy(), c05.strategy(), c14.st_poison(), c14.st_mistake())
+    return st.one_of(qgen.st_case_select(join_p=0, except_p=1, distinct=True, top=True, order=True), c01.strategy(), c02.strategy(), c03.st_case(), c04.strategy(), c05.strategy(), c05.strategy(), c14.st_poison(), c14.st_mistake())
 
 
 def check_lists(case, stats=None):
@@ -93,6 +93,10 @@ def check_js(case, drv, stats=None):
         upd = q['type'] == 'update'
         stats.case(case, bool((upd and r['error'] is None and jsdriver.unclean(r['out']) != case['A']) or r['error'] is not None), ['js', 'js-update' if upd else 'js-select'] + (['js-failing'] if r['error'] else []),
                    sample={'js_query': tjs, 'A': case['A'], 'error': r['error']})
+    if r.get('output_aliases_input'):
+        raise Violation('js-output-aliases-input-row', {'js_query': tjs, 'A': case['A'], 'B': case.get('B')})
+    if r.get('rows_replaced'):
+        raise Violation('js-input-rows-replaced', {'js_query': tjs, 'A': case['A']})
     if jsdriver.unclean(r['A_after']) != case['A']:
         raise Violation('js-input-array-modified', {'js_query': tjs, 'before': case['A'], 'after': r['A_after']})
     if case.get('B') is not None and jsdriver.unclean(r['B_after']) != case['B']:
@@ -104,7 +108,8 @@ def shard_js(shard, nshards, tier, seed, scratch):
     stats = Stats()
     drv = jsdriver.Driver()
     try:
-        strat = st.one_of(qgen.st_case_update(js=True, join_p=3), qgen.st_case_update(js=True, join_p=2, multi_match=True), c19.strategy())
+        strat = st.one_of(qgen.st_case_update(js=True, join_p=3), qgen.st_case_update(js=True, join_p=2, multi_match=True), c19.strategy(),
+                          qgen.st_case_select(js=True, join_p=0, except_p=1, distinct=True, top=True, order=True), qgen.st_case_select(js=True, join_p=3, distinct=True, top=True, order=True, except_p=4))
         fails = run_hypothesis(strat, lambda c: check_js(c, drv, stats), max(1, total // nshards), seed, shrink_budget=200 if tier == 'quick' else 1500)
     finally:
         drv.close()
